@@ -130,7 +130,35 @@ End Model.
 (* tie tactics: the regenerated tree for a given n equals the model *)
 Lemma cons_eq (x y : R) l m : x = y -> l = m -> x :: l = y :: m.
 Proof. intros; subst; reflexivity. Qed.
-Ltac list_eq tac := repeat (first [reflexivity | apply cons_eq; [first [reflexivity | ring | tac] |]]).
+Ltac list_eq tac := repeat (first [reflexivity | apply cons_eq; [first [reflexivity | ring | (unfold Rdiv; ring) | tac] |]]).
 Ltac split_simple_test :=
   match goal with |- context [if ?c then _ else _] =>
     lazymatch c with context [if _ then _ else _] => fail | _ => destruct c end end.
+
+(* the three uses of model_mesh *)
+Lemma model_none_n0 prec rfu xb xe db de : geo_model prec rfu xb xe db de 0 = None.
+Proof. unfold geo_model. cbv zeta. repeat (destruct (Rlt_dec _ _); [reflexivity|]). reflexivity. Qed.
+
+Lemma model_mesh_sum prec xb xe db de n v : 0 < prec -> geo_model prec rfu_sum xb xe db de n = Some v -> graded_mesh xb xe n v.
+Proof.
+  intros Hp H. destruct n as [|n]; [rewrite model_none_n0 in H; discriminate|].
+  apply (model_mesh prec Hp rfu_sum xb xe db de (S n) v H). right.
+  pose proof (gsum_pos (ratio xb xe db de) n (ratio_pos xb xe db de)). unfold rfu_sum. field. lra.
+Qed.
+
+Lemma model_mesh_geometric prec rfu xb xe db de n v : 0 < prec -> geo_model prec rfu xb xe db de n = Some v ->
+  1 / 100000 < Rabs (ratio xb xe db de - 1) -> graded_mesh xb xe n v.
+Proof. intros Hp H Hg. apply (model_mesh prec Hp rfu xb xe db de n v H). left. assumption. Qed.
+
+Lemma ratio_equal_densities xb xe d : ratio xb xe d d = 1.
+Proof.
+  unfold ratio. cbv zeta. replace (1 / 2 * (d / (xe - xb) - d / (xe - xb)) * (d / (xe - xb) - d / (xe - xb))) with 0 by ring.
+  replace (0 * (2 + 0)) with 0 by ring. rewrite sqrt_0. destruct (Rlt_dec _ _); ring.
+Qed.
+
+Lemma model_mesh_uniform prec xb xe d n v : 0 < prec -> geo_model prec rfu_uniform xb xe d d n = Some v -> graded_mesh xb xe n v.
+Proof.
+  intros Hp H. destruct n as [|n]; [rewrite model_none_n0 in H; discriminate|].
+  apply (model_mesh prec Hp rfu_uniform xb xe d d (S n) v H). right.
+  rewrite ratio_equal_densities, gsum_one. unfold rfu_uniform. field. apply not_0_INR. lia.
+Qed.
